@@ -433,8 +433,88 @@ def r6_lossless_conversion(repo=None):
     return r
 
 
+def r8_no_history_state(repo=None):
+    """'the answers of read, get_continuous_blocks and read_vector are coherent' across calls on one reader object only if an
+    answer is a function of the files and the arguments.  The per-directory reader keeps an open-file cache; that is harmless
+    exactly because everything in it is (re)loaded under the test `file name != remembered file name`, i.e. it is a function of
+    the key.  Any other attribute that _read stores outside such a cache-miss branch and reads before storing it in the same
+    call carries information from one query to the next: def-use over the CFG of _read (private helpers inlined)."""
+    r = Rule("C08.R8", "between queries the per-directory reader keeps nothing but a cache keyed by the file name")
+    m = pyfront.mod("digital_rf_hdf5", repo)
+    q = TL + "._read"
+    fv = m.flat(q)
+    f = fv.fn()
+    g = fv.cfg()
+
+    def self_attr(x):
+        return x.attr if isinstance(x, ast.Attribute) and isinstance(x.value, ast.Name) and x.value.id == "self" else None
+    stores = [(x, self_attr(x)) for x in ast.walk(f) if isinstance(x, ast.Attribute) and isinstance(x.ctx, ast.Store) and self_attr(x)]
+    if not stores:
+        raise AnalysisError("%s: no attribute store found (the open-file cache was confirmed on the reference tree)" % q)
+    miss = []
+    for n in ast.walk(f):
+        if isinstance(n, ast.If) and isinstance(n.test, ast.Compare) and len(n.test.ops) == 1 and isinstance(n.test.ops[0], (ast.NotEq, ast.Eq)):
+            sides = [n.test.left, n.test.comparators[0]]
+            keys = [self_attr(s_) for s_ in sides if self_attr(s_)]
+            other = [s_ for s_ in sides if isinstance(s_, ast.Name)]
+            if len(keys) == 1 and len(other) == 1:
+                branch = n.body if isinstance(n.test.ops[0], ast.NotEq) else n.orelse
+                if any(self_attr(x) == keys[0] and isinstance(x.ctx, ast.Store) and isinstance(fv.parents.get(x), ast.Assign)
+                       and isinstance(fv.parents.get(x).value, ast.Name) and fv.parents.get(x).value.id == other[0].id
+                       for st in branch for x in ast.walk(st)):
+                    miss.append((n, branch, keys[0]))
+    if not miss:
+        raise AnalysisError("%s: cache-miss branch (`if <file> != self.<remembered file>: ... self.<remembered file> = <file>`) not found" % q)
+    in_miss = set()
+    for n, branch, key in miss:
+        for st in branch:
+            for x in ast.walk(st):
+                in_miss.add(id(x))
+    cache = {a for x, a in stores if id(x) in in_miss}
+    hist = {}
+    for x, a in stores:
+        if id(x) not in in_miss:
+            hist.setdefault(a, []).append(x)
+    for a in sorted(cache - set(hist)):
+        r.ok("%s %s self.%s" % (m.rel, q, a), "stored only in the cache-miss branch: a function of the file it was loaded from")
+    for a, sts in sorted(hist.items()):
+        all_sts = [z for z, b in stores if b == a]
+        store_nodes = [n.id for n in g.nodes if n.ast is not None and any(x is y for x in all_sts for y in _own(n))]
+        readers = [n for n in g.nodes if n.ast is not None and any(self_attr(y) == a and isinstance(y.ctx, ast.Load) for y in _own(n))]
+        reach = g.reach([g.entry.id], avoid=store_nodes, skip_labels=("exc",))
+        stale = [n for n in readers if n.id in reach or n.id == g.entry.id]
+        # a read in the very node that stores (x = f(self.a)) counts as well when the node itself is reachable without a store
+        for n in readers:
+            if n.id in store_nodes:
+                preds_reach = g.reach([g.entry.id], avoid=[i for i in store_nodes if i != n.id], skip_labels=("exc",))
+                if n.id in preds_reach and n not in stale:
+                    stale.append(n)
+        if stale:
+            r.violation(m.rel, q, "self.%s is stored outside the file cache and read by a later query (`%s`)" % (a, norm(stale[0].label)[:60]),
+                        "an answer of the reader depends on the queries made before it: `self.%s` is written at line %d on a path that "
+                        "is not the cache-miss branch and is read at line %d before this call has stored it, so read / "
+                        "get_continuous_blocks / read_vector on a long-lived reader can differ from the same query on a fresh one "
+                        "(blocks skipped or repeated)" % (a, sts[0].lineno, stale[0].line), line=stale[0].line)
+        else:
+            r.ok("%s:%s %s self.%s" % (m.rel, sts[0].lineno, q, a), "stored on every query but never read before it is stored in the same call")
+    r.guard(3)
+    return r
+
+
+def _own(n):
+    """expression nodes evaluated by CFG node n itself (a compound statement's node stands for its header only)"""
+    a = n.ast
+    if isinstance(a, (ast.If, ast.While)):
+        return ast.walk(a.test)
+    if isinstance(a, ast.For):
+        return ast.walk(a.iter)
+    if isinstance(a, (ast.Try, ast.With, ast.FunctionDef)):
+        return iter(())
+    return ast.walk(a)
+
+
 def rules(repo=None):
-    return [lambda: r1_one_pipeline(repo), lambda: r2_vector_guards(repo), lambda: r3_guard_on_sample_axis(repo),
+    return [lambda: r8_no_history_state(repo), lambda: r1_one_pipeline(repo), lambda: r2_vector_guards(repo), lambda: r3_guard_on_sample_axis(repo),
             lambda: c01.r3_exact_lookup(repo, rid="C08.R4"), lambda: r5_subchannel_column(repo),
             lambda: r6_lossless_conversion(repo), lambda: c01.r6_exact_index_use(repo, rid="C08.R7")]
 
@@ -445,7 +525,7 @@ EXPLANATION = (
     "of its specialisation for len_only=False under array -> len(array) (concatenate -> +, len(x) -> x). R2: the three guards of read_vector_raw raise IOError on every path to its return; the wrappers reach data only "
     "through it. R3: no squeeze/ravel/flatten of the array between taking it from read() and the length guard. R4: exact file "
     "lookup (C01.R3). R5: the subchannel branch indexes rf_data with the same row slice. R6: numpy's promotion table joined with "
-    "the element types: which conversions are exact. R7: block-index entries only through int(). Does NOT decide the split/merge "
+    "the element types: which conversions are exact. R7: block-index entries only through int(). R8: every attribute _read stores is either loaded in the cache-miss branch keyed by the file name or never read before it is stored in the same call (no query-history state). Does NOT decide the split/merge "
     "relation or bounds arithmetic.")
 TECHNIQUE = ('Python ast; sibling comparison of the data and length pipelines (homomorphic image under len); CFG must-pass for guards; float-taint; promotion table')
 ASSUMPTIONS = ["numpy.promote_types table for float x integer types (documented)", "h5py dataset slicing returns rows [a, b)"]
